@@ -1,26 +1,34 @@
 #!/bin/bash
 export VERIF_SEEDED=1
 # tools/seedmatrix.sh [tier] : run every kept seeded change against the check(s) of its property
-# (meta.json caught_by) and write seeded/MATRIX.md.  /repo is restored after each run.
+# (meta.json caught_by) and write seeded/MATRIX.md.  The repository is restored after each run.
+# Works on $VERIF_REPO (default /repo) and on the /verif tree this script lives in, so that it can
+# run in the background on snapshots:  vp run --with-repo -- bash -c 'VERIF_REPO=$VP_RUN_REPO tools/seedmatrix.sh quick'
 T=${1:-quick}
-OUT=/verif/seeded/MATRIX.md
-echo "# Seeded changes vs checks ($T tier, $(git -C /repo rev-parse --short HEAD))" > $OUT
+V=$(cd "$(dirname "$0")/.." && pwd)
+R=${VERIF_REPO:-/repo}
+export VERIF_REPO=$R
+OUT=$V/seeded/MATRIX.md
+echo "# Seeded changes vs checks ($T tier, $(git -C $R rev-parse --short HEAD))" > $OUT
 echo >> $OUT
 echo "| seed | check | result | first signature |" >> $OUT
 echo "|---|---|---|---|" >> $OUT
-cd /repo; git diff --quiet -- src || { echo "/repo has local changes"; exit 2; }
-for d in /verif/seeded/C*/; do
+cd $R; git diff --quiet -- src || { echo "$R has local changes"; exit 2; }
+mkdir -p $V/build
+[ -f $V/build/asan/build.ninja ] || (cd $V && python3 vcheck.py setup > /dev/null)
+for d in $V/seeded/C*/; do
   s=$(basename $d)
   checks=$(python3 -c "import json;print(' '.join(json.load(open('$d/meta.json'))['caught_by']))")
-  git -C /repo apply $d/patch.diff 2>/dev/null || { echo "| $s | - | PATCH DOES NOT APPLY | |" >> $OUT; continue; }
+  git -C $R apply $d/patch.diff 2>/dev/null || { echo "| $s | - | PATCH DOES NOT APPLY | |" >> $OUT; echo "$s PATCH DOES NOT APPLY"; continue; }
   for c in $checks; do
-    (cd /verif && timeout 2400 python3 vcheck.py run $c --tier $T > build/mx_${s}_$c.log 2>&1); rc=$?
-    sig=$(grep -A1 '^VIOLATION' /verif/build/mx_${s}_$c.log | grep signature | head -1 | sed 's/.*signature: //' | cut -c1-110)
-    n=$(grep -c '^VIOLATION' /verif/build/mx_${s}_$c.log)
+    (cd $V && timeout 2400 python3 vcheck.py run $c --tier $T > build/mx_${s}_$c.log 2>&1); rc=$?
+    sig=$(grep -A1 '^VIOLATION' $V/build/mx_${s}_$c.log | grep signature | head -1 | sed 's/.*signature: //' | cut -c1-110)
+    n=$(grep -c '^VIOLATION' $V/build/mx_${s}_$c.log)
     if [ $rc = 1 ] && [ $n -gt 0 ]; then r="caught ($n)"; elif [ $rc = 0 ]; then r="MISSED"; else r="rc=$rc"; fi
     echo "| $s | $c | $r | \`$sig\` |" >> $OUT
     echo "$s $c $r $sig"
   done
-  git -C /repo checkout -- .
+  git -C $R checkout -- .
 done
-git -C /verif checkout -- evidence 2>/dev/null
+git -C $V checkout -- evidence 2>/dev/null
+echo MATRIX-DONE
